@@ -262,6 +262,8 @@ impl vstd::std_specs::convert::TryFromSpecImpl<&TExpr> for u32 {
         'AnnotatedStmt::new': dict(props=['C03', 'C06'], ret='r', spec='requires !(stmt is AnnotatedStmt),                          // the `panic!` of the body\nensures r.stmt == stmt, r.annotations == annotations,'),
         'implicit_cast_type': dict(props=['C08', 'C20'], ret='r', spec='ensures arith_common(*op, *ty1, *ty2, r),                                  //@C20,C08:arith-common-type'),
         'GateOperand::to_texpr': dict(props=['C13', 'C06'], ret='r', spec='ensures r.ty == typ, r.expression == Expr::GateOperand(self),'),
+        'DeclareClassical::to_stmt': dict(props=['C08', 'C06'], ret='r', spec='ensures r == Stmt::DeclareClassical(Box::new(self)),'),
+        'Assignment::to_stmt': dict(props=['C08', 'C06'], ret='r', spec='ensures r == Stmt::Assignment(self),'),
         'TExpr::get_type': dict(props=['C08', 'C06'], ret='r', spec='ensures *r == self.ty,'),
         'Cast::get_type': dict(props=['C08'], ret='r', spec='ensures *r == self.typ,'),
         'Cast::to_expr': dict(props=['C08', 'C06'], ret='r', spec='ensures r == Expr::Cast(Box::new(self)),'),
@@ -339,7 +341,7 @@ pub assume_specification<T: Clone, EE: Clone> [<Result<T, EE> as Clone>::clone] 
 
     for fn in ['qubit_list_to_asg_texpr', 'expression_list_to_asg_texpr', 'indexed_identifier_to_asg_type', 'block_expr_to_asg_stmt_list',
                'block_expr_to_asg_type', 'block_or_stmt_to_asg_type', 'stmt_to_asg_stmt', 'expr_stmt_to_asg_stmt', 'bind_parameter_list', 'bind_typed_parameter_list']:
-        zov[fn]['spec'] = 'ensures ext(old(context).errs(), final(context).errs()),   // (assumed: diagnostics are only ever appended)'
+        zov[fn]['spec'] = 'ensures grows(*old(context), *final(context)),   // (assumed: diagnostics and symbol-table events are only ever appended)'
     D3_OLD = """
         .arg_list()
         .map(|ex| expression_list_to_asg_texpr(ex.expression_list().unwrap(), context));"""
@@ -380,11 +382,11 @@ ensures
     // undefined and reported exactly once
     r.0 == lookup_id(*old(context), identifier.sp_string()), r.1 == lookup_type(*old(context), identifier.sp_string()),   //@C07,C08:identifier-has-symbol-type
     final(context).errs() == old(context).errs() + undef_diag(*old(context), identifier.sp_string(), SemanticErrorKind::UndefVarError),   //@C07:undefined-reported-once
-    final(context).same_tables_but_trace(old(context)),
+    final(context).same_tables_but_trace(old(context)), grows(*old(context), *final(context)),
 '''))
     zov.setdefault('gate_operand_to_asg_texpr', {}).update(dict(ret='r', props=['C13', 'C03'], spec='''
 ensures
-    ext(old(context).errs(), final(context).errs()),
+    grows(*old(context), *final(context)),
     gate_operand is HardwareQubit ==> r.ty == Type::HardwareQubit && final(context).errs() == old(context).errs(),
     // a non-quantum symbol as gate / measure / reset operand is reported, a quantum one is not
     gate_operand is Identifier ==> ({
@@ -398,7 +400,7 @@ ensures
         spec='ensures r == des_expr(arg),'))
     zov.setdefault('designator_to_asg', {}).update(dict(ret='r', props=['C09', 'C03'], spec='''
 ensures
-    ext(old(context).errs(), final(context).errs()),
+    grows(*old(context), *final(context)),
     // no designator: no width, no diagnostic
     des_expr(designator) is None ==> r is None && final(context).errs() == old(context).errs(),
     // an integer literal yields exactly its value (carve-out: values that do not fit u32)
@@ -442,23 +444,86 @@ ensures
     assert(gate_call_post(*old(context), mid, *context, name, symbol_result, opt_len(param_list), gate_operands@.len()));     //@C13:gate-call-arity-iff
 }'''),
     ]
+    zov.setdefault('declare_classical_helper', {}).update(dict(ret='r', props=['C08', 'C03'], spec='''
+ensures
+    r == asg::Stmt::DeclareClassical(Box::new(asg::DeclareClassical { name: symbol_id, initializer })),
+    final(context).errs() == old(context).errs(), final(context).trace() == old(context).trace(),
+'''))
+    zov.setdefault('classical_declaration_statement_to_asg_stmt', {}).update(dict(ret='r', props=['C08', 'C07', 'C09', 'C03'], spec='''
+ensures
+    grows(*old(context), *final(context)),
+    // the name is bound after its type and its initializer have been analysed: the binding is the
+    // last symbol-table event of the statement (the initializer cannot see the new name)
+    final(context).trace().len() > 0 && final(context).trace().last() is Bind,                                  //@C07:initializer-analysed-before-binding
+    r is DeclareClassical,
+    // declaration rule: the stored value has the declared type up to const, or is an explicit cast
+    // to exactly the declared type, or a type diagnostic was reported
+    r->DeclareClassical_0.initializer is Some ==>
+        decl_ok(final(context).trace().last()->Bind_1, r->DeclareClassical_0.initializer->Some_0, final(context).errs()),   //@C08:declaration-rule
+'''))
+    zov.setdefault('assignment_stmt_to_asg_stmt', {}).update(dict(ret='r', props=['C08', 'C13', 'C03'], spec='''
+ensures
+    grows(*old(context), *final(context)), r is Some,
+    // assignment to a declared variable: value of exactly the variable's type (directly or through an
+    // explicit cast to it) or one type diagnostic; MutateConstError iff the target is a const symbol
+    assignment_stmt.sp_identifier() is Some ==> r->Some_0 is Assignment && (exists|mid: Context, td: Seq<SemanticErrorKind>|
+        assign_post(*old(context), mid, *final(context), assignment_stmt.sp_identifier()->Some_0.sp_string(), td,
+                    r->Some_0->Assignment_0.lvalue, r->Some_0->Assignment_0.rvalue)),                                     //@C08,C13:assignment-rule
+''', ghost=[('let (symbol_id, symbol_type) = context.lookup_symbol(name_str.as_str(), name).as_tuple();', 'before', 'let ghost mid = *context;'),
+            ('let (symbol_id, symbol_type) = context.lookup_symbol(name_str.as_str(), name).as_tuple();', 'after', 'let ghost e1 = context.errs();'),
+            ('let stmt_asg = Some(asg::Assignment::new(lvalue, expr).to_stmt());', 'before', '''let ghost td = context.errs().skip(e1.len() as int);
+let ghost lv0 = lvalue; let ghost rv0 = expr;
+proof { assert(context.errs() =~= e1 + td); }'''),
+            ('        return stmt_asg;', 'before', '''proof {
+    assert(assign_post(*old(context), mid, *context, assignment_stmt.sp_identifier()->Some_0.sp_string(), td, lv0, rv0));    //@C08,C13:assignment-rule
+}''')]))
     zov.setdefault('scalar_type_to_type', {}).update(dict(ret='r', props=['C09', 'C03'], spec='''
 ensures
-    ext(old(context).errs(), final(context).errs()),
+    grows(*old(context), *final(context)),
     // base type <-> keyword, const flag = argument, bit[n] / qubit[n] -> one-dimensional registers of length n
     r == type_of(scalar_type.sp_kind(), written_width(r), isconst),                                                  //@C09:declared-type-as-written
 '''))
     zov.setdefault('literal_to_asg_texpr', {}).update(dict(ret='res', spec='ensures res is Some,'))
-    zov.setdefault('paren_expr_to_asg_texpr', {}).update(dict(ret='res', spec='ensures res is Some,'))
+    zov.setdefault('paren_expr_to_asg_texpr', {}).update(dict(ret='res', spec='ensures res is Some, grows(*old(context), *final(context)),'))
+    for fn in ['range_expression_to_asg_type', 'set_expression_to_asg_type', 'index_operator_to_asg_type', 'expression_list_to_asg_type', 'call_expr_to_asg_texpr', 'param_type_to_type', 'io_declaration_statement_to_asg_stmt']:
+        zov.setdefault(fn, {}).setdefault('spec', 'ensures grows(*old(context), *final(context)),')
+    zov.setdefault('expr_to_asg_texpr', {})['ghost'] = list(zov.get('expr_to_asg_texpr', {}).get('ghost', [])) + [
+        # C13: applying a binary operator to a quantum value is reported, once per quantum operand, and nothing else is
+        ('            if left.get_type().is_quantum() {', 'before', 'let ghost midb = *context;'),
+        ('            Some(asg::BinaryExpr::new_texpr_with_cast(op, left, right))', 'before', '''proof {
+    assert(context.errs() == (midb.errs() + cond1(is_quantum_operand_type(left.ty), SemanticErrorKind::IncompatibleTypesError))
+                             + cond1(is_quantum_operand_type(right.ty), SemanticErrorKind::IncompatibleTypesError));       //@C13:binary-operator-on-quantum-value
+}'''),
+        # C13: `return` at global scope is reported, inside a subroutine it is not
+        ('            if context.symbol_table().current_scope_type() == ScopeType::Global {', 'before', 'let ghost midr = *context;'),
+        ('            Some(asg::ReturnExpression::new(expr_asg).to_texpr())', 'before', '''proof {
+    assert(context.errs() == midr.errs() + cond1(midr.global(), SemanticErrorKind::ReturnInGlobalScopeError));             //@C13:return-at-global-scope
+}'''),
+    ]
+    zov.setdefault('call_expr_to_asg_texpr', {})['ghost'] = list(zov.get('call_expr_to_asg_texpr', {}).get('ghost', [])) + [
+        ('    if expected_num_params != num_params {', 'before', 'let ghost midc = *context;'),
+        ('    let typ = def_type.return_type;', 'before', '''proof {
+    assert(context.errs() == midc.errs() + cond1(def_type.num_params != opt_len(param_list), SemanticErrorKind::NumDefParamsError));   //@C13:subroutine-argument-count
+}'''),
+    ]
     zov.setdefault('expr_to_asg_texpr', {}).update(dict(ret='res', spec='''
 ensures
     // an expression that is present is always translated (never silently dropped)
     expr_maybe is Some ==> res is Some,                                                     //@C03,C06:expr-translated
+    grows(*old(context), *final(context)),
 '''))
+    SEED = 'broadcast use sema_lemmas; proof { assert(ext(context.errs(), context.errs())); assert(ext_tr(context.trace(), context.trace())); }'
+
+    def dflt(q, sig):
+        head = SEED if re.search(r'\bcontext\s*:\s*&mut\s+Context', sig) else 'broadcast use sema_lemmas;'
+        return dict(props=P, nodecreases=True, ghost=[('{', 'after', head)])
+    rfz2 = RustFile(os.path.join(REPO, S2S))
     for fn_, kw_ in zov.items():
         if not kw_.get('trusted'):
-            kw_['ghost'] = [('{', 'after', 'broadcast use sema_lemmas;')] + list(kw_.get('ghost', []))
-    z.ingest(overrides=zov, skip=S2S_SKIP, only_kinds=('fn',), default=lambda q, sig: dict(props=P, nodecreases=True, ghost=[('{', 'after', 'broadcast use sema_lemmas;')]))
+            it_ = rfz2.find_fn(fn_, None, 0)
+            head = dflt(fn_, rfz2.src[it_['header_start']:it_['sig_end']])['ghost'][0]
+            kw_['ghost'] = [head] + list(kw_.get('ghost', []))
+    z.ingest(overrides=zov, skip=S2S_SKIP, only_kinds=('fn',), default=dflt)
     U.assumed_parser = (['%s::%s() returns Some — %s' % (k[0], k[1], v[1]) for k, v in sorted(ACC_SOME.items()) if v[0] == AP]
                         + ['%s::%s(): %s — %s' % (k[0], k[1], v[1], v[2]) for k, v in sorted(ACC_CUSTOM.items())]
                         + ['%s: arm `%s…` unreachable — %s' % (g[0], g[1][:40], g[3]) for g in PANIC_GUARDS if g[2] == AP])
